@@ -8,7 +8,9 @@ EXTENDS Directory, Json
 CONSTANTS D,        \* history length (BFS) / upper bound (simulation)
           E,        \* emit when Len(hist) = E
           GCases,   \* set of [w, cfg] explored
-          OpsMode   \* "c15": adds, replacements, removals (also of absent names), reloads
+          OpsMode   \* "c15": adds, replacements, removals (also of absent names), reloads, and the
+                    \*        object steps: Fork (load a 2nd/3rd live directory from the root node,
+                    \*        keep the old one and the node), Focus (redirect the calls to a parked one)
                     \* "c16": adds, replacements, removals of present names
 VARIABLE hist
 gvars == <<vars, hist>>
@@ -84,12 +86,23 @@ GInit == hist = <<>> /\ \E c \in GCases : InitWith(c.w, c.cfg)
 \* Every call is enabled in every state of Directory (with some outcome), so each op sequence is
 \* a history of the spec; only `entries` is evolved here (to prune no-op removals), the full step
 \* relation is applied to the recorded replay by TraceDirectory.
-Light(e) == entries' = e /\ UNCHANGED <<w, cfg, mode, set, bk, trie, err, dev>>
+Light(e) == entries' = e /\ UNCHANGED <<w, cfg, mode, set, bk, trie, err, dev, parked, nodes>>
+\* object steps, light as well: `parked` carries the entries of the parked objects (so that removals
+\* of absent names etc. are pruned per object), `nodes` is not needed to enumerate inputs
+GFork(via) == /\ OpsMode = "c15" /\ Len(parked) < MaxParked
+              /\ parked' = Append(parked, ThisObj) /\ hist' = Append(hist, <<"F", via, NoT>>)
+              /\ UNCHANGED <<w, cfg, entries, mode, set, bk, trie, err, dev, nodes>>
+GFocus(k)  == /\ OpsMode = "c15"
+              /\ entries' = parked[k].entries /\ parked' = [parked EXCEPT ![k] = ThisObj]
+              /\ hist' = Append(hist, <<"S", ToString(k), NoT>>)
+              /\ UNCHANGED <<w, cfg, mode, set, bk, trie, err, dev, nodes>>
 GNext == /\ Len(hist) < D
          /\ \/ \E nt \in AddOps : Light(With(nt[1], nt[2])) /\ hist' = Append(hist, <<"A", nt[1], nt[2]>>)
             \/ \E n \in Names : /\ OpsMode = "c15" \/ Present(n)
                                 /\ Light(With(n, NoT)) /\ hist' = Append(hist, <<"R", n, NoT>>)
             \/ OpsMode = "c15" /\ Light(entries) /\ hist' = Append(hist, <<"L", NoT, NoT>>)
+            \/ \E via \in {"node", "store"} : GFork(via)
+            \/ \E k \in DOMAIN parked : GFocus(k)
 GSpec == GInit /\ [][GNext]_gvars
 Beh == [w |-> w, cfg |-> cfg, ops |-> hist]
 Emit == Len(hist) # E \/ PrintT(<<"BEHAVIOUR", ToJson(Beh)>>)
